@@ -252,7 +252,11 @@ def handle (line : String) : String :=
     | some l, some n, some k =>
       let c := savedCounter l k
       let labels := (resumedRun (fun _ (s : Nat) => s) n c 0).map (·.1)
-      s!"counter {c} labels {",".intercalate (labels.map toString)}"
+      let ev := fun (e : LoopEvent) => match e with
+        | .step => "step" | .decide => "decide" | .logger => "logger" | .tune => "tune" | .scheduler => "scheduler"
+        | .convergence => "convergence" | .adapt => "adapt" | .snapshot => "snapshot" | .increment => "increment"
+        | .save => "save" | .other => "other"
+      s!"counter {c} labels {",".intercalate (labels.map toString)} order {",".intercalate ((l.events.filter (· != .other)).map ev)} storesNext {l.storesNext}"
     | _, _, _ => "bad-op"
   | "reinject" :: dflt :: ws =>
     match parseDT dflt, ws.splitOn "||" with
